@@ -805,6 +805,7 @@ func (client *client) internalClose() {
 	}
 	putBufioReader(client.bufr)
 	putBufioWriter(client.bufw)
+	verifTrace(client.server, "closed", "conn", verifConn(client), "cid", client.opts.ClientID)
 	close(client.closed)
 
 }
@@ -1451,12 +1452,14 @@ func (client *client) serve() {
 	readWg.Add(1)
 	go func() { //read
 		client.readLoop()
+		verifTrace(client.server, "exit.read", "conn", verifConn(client))
 		readWg.Done()
 	}()
 
 	client.wg.Add(1)
 	go func() { //write
 		client.writeLoop()
+		verifTrace(client.server, "exit.write", "conn", verifConn(client))
 		client.wg.Done()
 	}()
 
@@ -1464,10 +1467,12 @@ func (client *client) serve() {
 		client.wg.Add(2)
 		go func() {
 			client.pollMessageHandler()
+			verifTrace(client.server, "exit.poll", "conn", verifConn(client))
 			client.wg.Done()
 		}()
 		go func() {
 			client.readHandle()
+			verifTrace(client.server, "exit.handle", "conn", verifConn(client))
 			client.wg.Done()
 		}()
 
